@@ -575,8 +575,16 @@ func c01GenH1(r *rand.Rand, profile string) *c01H1Case {
 			tc.header[PseudoHeaderOderKey] = []string{":path", ":method"}
 		}
 	}
-	if len(tc.header[HeaderOderKey]) > 0 && strings.Contains(tc.method, "\r\n") {
-		tc.method = "GET" // the canonical form of order mode splits the head at the first blank line
+	if len(tc.header[HeaderOderKey]) > 0 {
+		// the canonical form of order mode splits the head at the first blank line: keep raw CR LF
+		// out of the two places the writer does not sanitise (method, User-Agent); the plain mode
+		// (byte exact) keeps covering them
+		if strings.Contains(tc.method, "\r\n") {
+			tc.method = "GET"
+		}
+		if vs := tc.header["User-Agent"]; len(vs) > 0 && strings.ContainsAny(vs[0], "\r\n") {
+			vs[0] = "ua/1"
+		}
 	}
 	// body / content length
 	switch r.Intn(10) {
@@ -718,5 +726,16 @@ func TestVerif_C01_h1write(t *testing.T) {
 	s.OracleIndependent = false
 	c01LaneH1(t, s, "plain", verifh.N(2500, 60000))
 	s.Need(t, "plain-mode", "order-mode", "chunked", "content-length", "no-body", "oracle-applied", "err:bodylen", "err:clnil", "err:ctl")
+	s.Finish()
+}
+
+// TestVerif_C16_h1wire: the same byte-exact HTTP/1.1 capture with the generator turned towards
+// header sets and orders: up to 60 keys, header-order lists in nearly every case (subset,
+// superset, other case, duplicated, full), names differing only in case, non-canonical spellings.
+func TestVerif_C16_h1wire(t *testing.T) {
+	s := c01New(t, "C16", "h1wire",
+		"as C01/h1write but 0..60 header keys (around the 12-element boundary of the old sort in a quarter of the cases), a __header_order__ list in 7 of 8 cases (subset / superset with absent names / other case / duplicated / full, shuffled), canonical and non-canonical spellings of one name, bookkeeping keys present; compared: request line, multiset of header lines, listed names in wire order, body; oracle: net/http.ReadRequest sees every caller value once, no bookkeeping key, listed headers in list order; non-trivial = oracle applied")
+	c01LaneH1(t, s, "order", verifh.N(2500, 60000))
+	s.Need(t, "order-mode", "plain-mode", "oracle-applied", "chunked", "content-length")
 	s.Finish()
 }
